@@ -199,6 +199,16 @@ def split(combined_unit):
     # u = re.compile(unit_re)
     # p = re.compile(prefix_re)
 
+    # prefer a decomposition of the whole string; the regex alternatives try
+    # short unit names first, so an unanchored match would take e.g. "mmol"
+    # for milli-"m" instead of milli-"mol"
+    for matcher in (pup, unit_matcher, prefix_matcher):
+        match = matcher.fullmatch(combined_unit)
+        if match:
+            groups = match.groupdict()
+            return (groups.get("prefix", ""), groups["unit"],
+                    groups.get("power", "^")[1:])
+
     match = pup.match(combined_unit)
     if match:
         prefix = match.group("prefix")
